@@ -355,6 +355,11 @@ pub(in crate::sql) fn except(
         if bottom.iter().any(|c| output.contains(c)) {
             continue;
         }
+        // select must contain all of top: the set operation is positional, so a projection
+        // that keeps only some of the top columns cannot be expressed by it
+        if !top.iter().all(|c| output.contains(c)) {
+            continue;
+        }
 
         // determine DISTINCT
         let mut distinct = false;
@@ -438,8 +443,9 @@ pub(in crate::sql) fn intersect(
         if bottom.iter().any(|c| output.contains(c)) {
             continue;
         }
-        // select must contain at least one thing from top
-        if top.iter().all(|c| !output.contains(c)) {
+        // select must contain all of top: the set operation is positional, so a projection
+        // that keeps only some of the top columns cannot be expressed by it
+        if !top.iter().all(|c| output.contains(c)) {
             continue;
         }
 
